@@ -3,6 +3,6 @@
    Coq datatypes.  No Extract Constant. *)
 From Coq Require Import ExtrOcamlBasic.
 From Coq Require Import ZArith NArith List.
-From FR Require Import Dec Types Bank Match Step Genesis Model Checkers.
+From FR Require Import Dec Types Bank Match Step Genesis Model Spec Checkers.
 Extraction Language OCaml.
 Extraction "model.ml" step run_query run model_trans failing all_checks clearing_spec.
